@@ -16,22 +16,22 @@ import (
 )
 
 type Obligation struct {
-	Name      string
-	Kind      string // index slice make div nilmap typeassert pre post post_panic inv_entry inv_keep nopanic frame ovf lemma struct chansend ...
-	Func      string // pkg::key of the function under contract
-	Goal      Term
-	Reach     Term
-	Upto      int
-	Pos       string
-	Src       string
-	vc        *VC
-	Res       SolverResult
-	Struct    bool // discharged structurally (no SMT)
-	StructOK  bool
-	StructMsg string
-	Props     []string
-	Vars      []string // symbols of interest for the model
-	BeforeUpto  int    // cover after a call: prefix length and reach before the call
+	Name        string
+	Kind        string // index slice make div nilmap typeassert pre post post_panic inv_entry inv_keep nopanic frame ovf lemma struct chansend ...
+	Func        string // pkg::key of the function under contract
+	Goal        Term
+	Reach       Term
+	Upto        int
+	Pos         string
+	Src         string
+	vc          *VC
+	Res         SolverResult
+	Struct      bool // discharged structurally (no SMT)
+	StructOK    bool
+	StructMsg   string
+	Props       []string
+	Vars        []string // symbols of interest for the model
+	BeforeUpto  int      // cover after a call: prefix length and reach before the call
 	BeforeReach Term
 	Extra       []string // assertions for this obligation only (instances of universal assumptions)
 }
@@ -73,8 +73,8 @@ type VC struct {
 	boxDecl  map[string]bool
 	curPos   token.Pos
 	errs     []string
-	stable   []*Shape // locations unknown calls are assumed not to touch
-	inQuant  int      // >0 while evaluating under a quantifier: terms mention bound variables
+	stable   []*Shape            // locations unknown calls are assumed not to touch
+	inQuant  int                 // >0 while evaluating under a quantifier: terms mention bound variables
 	univ     []func(inst []Term) // re-states the universal assumptions made so far at given terms
 	capture  *[]string
 }
@@ -354,15 +354,15 @@ func (vc *VC) script(o *Obligation, model bool) string {
 // State
 
 type State struct {
-	reach   Term
-	heap    map[string]Term
-	epoch   int             // 0 = entry; >0 = id of the last total havoc
-	gepoch  int             // same for ghost state (modifies ghost.*)
-	dirty   map[string]bool // families assigned on the way here (not merely renamed by a havoc/merge)
-	deferOn map[*ssa.Defer]Term
-	panicking bool          // executing on the exceptional path
-	panicVal  Value         // value being panicked with
-	recovered Term          // Bool: a deferred call has recovered the panic (exceptional path only)
+	reach     Term
+	heap      map[string]Term
+	epoch     int             // 0 = entry; >0 = id of the last total havoc
+	gepoch    int             // same for ghost state (modifies ghost.*)
+	dirty     map[string]bool // families assigned on the way here (not merely renamed by a havoc/merge)
+	deferOn   map[*ssa.Defer]Term
+	panicking bool  // executing on the exceptional path
+	panicVal  Value // value being panicked with
+	recovered Term  // Bool: a deferred call has recovered the panic (exceptional path only)
 }
 
 func (st *State) clone() *State {
